@@ -33,7 +33,17 @@ pub fn gen_c19(seed: u64, tier: &str) -> Value {
             6 | 7 => json!({"op": "event_burst", "n": match r.below(4) { 0 => 1, 1 => r.below(20), 2 => r.below(200), _ => 900 + r.below(300) }, "len": r.below(5000)}),
             8 | 9 => json!({"op": "advance", "ms": match r.below(5) { 0 => 0, 1 => r.below(100), 2 => 1000 + r.below(5000), 3 => 60_000, _ => 3_600_000 }}),
             10 | 11 => json!({"op": "rules"}),
-            12 => json!({"op": "restart"}),
+            12 => {
+                if r.chance(1, 2) {
+                    json!({"op": "restart"})
+                } else if r.chance(2, 3) {
+                    // something that is not a regular file appears in one of the folders (a dangling symbolic link, a
+                    // sub-folder): listing such a folder can fail or return entries that cannot be examined
+                    json!({"op": "junk", "dir": *r.pick(&["rules", "rules", "events", "logs"]), "kind": *r.pick(&["dangling_symlink", "dangling_symlink", "subdir"])})
+                } else {
+                    json!({"op": "unjunk"})
+                }
+            }
             _ => {
                 if backward_jumps {
                     json!({"op": "clock_jump", "ms": -(r.below(7_200_000) as i64)})
@@ -90,6 +100,8 @@ pub async fn custom_step(run: &mut Run, _idx: usize, kind: &str, s: &Value) -> b
     let mut last_write: Vec<u64> = vec![0; specs.len()]; // size of the last single write per logger
     let mut rules_written: Vec<String> = Vec::new();
     let mut serial = 0u64;
+    let mut junk: Vec<String> = Vec::new();
+    let mut junk_serial = 0u64;
     let ops = s["ops"].as_array().cloned().unwrap_or_default();
     let mut viol: Vec<(String, String)> = Vec::new();
     for (oi, op) in ops.iter().enumerate() {
@@ -130,6 +142,27 @@ pub async fn custom_step(run: &mut Run, _idx: usize, kind: &str, s: &Value) -> b
                 loggers = mk(&specs);
             }
             "clock_jump" => vrt::time::jump_wall(op["ms"].as_i64().unwrap_or(0) * 1_000_000),
+            "junk" => {
+                let dir = match op["dir"].as_str().unwrap_or("rules") { "events" => EVENT_DIR, "logs" => LOG_DIR, _ => RULES_DIR };
+                junk_serial += 1;
+                let p = format!("{}/zz-junk-{}", dir, junk_serial);
+                crate::seams::untraced(|| {
+                    if op["kind"] == "subdir" {
+                        let _ = std::fs::create_dir_all(&p);
+                    } else {
+                        let _ = std::os::unix::fs::symlink("/nonexistent/target", &p);
+                    }
+                });
+                junk.push(p);
+                run.stat("fault.junk_entry_in_folder", 1);
+            }
+            "unjunk" => {
+                crate::seams::untraced(|| {
+                    for p in junk.drain(..) {
+                        let _ = std::fs::remove_file(&p).or_else(|_| std::fs::remove_dir_all(&p));
+                    }
+                });
+            }
             _ => {}
         }
         // ---- bounds, after every operation
